@@ -1,26 +1,35 @@
 /-
 C14 — the property theorems.  `transactCtx env f b` is the model of `commonSqlConn.TransactCtx`
-(= `Transact`, `sqlc.CachedConn.Transact[Ctx]`) for an arbitrary environment `env` (context state, breaker
-admission, connection provider, installed acceptable function), an arbitrary driver fault plan `f`
-(Begin / Commit / Rollback answers) and an arbitrary body `b` (any number of statements, each ok or faulted,
-the fault returned or ignored by the body; final outcome nil / error / panic).  Nothing is bounded.
+(= `Transact`, `sqlc.CachedConn.Transact[Ctx]`) for an arbitrary environment `env` (context done / deadline
+expired at the call, breaker admission, connection provider, installed acceptable function), an arbitrary driver
+fault plan `f` (Begin answered driver.ErrBadConn any number of times before its definitive answer; Begin /
+Commit / Rollback answers ok, error or — Commit / Rollback — panic) and an arbitrary body `b` (any number of
+exec / query / nested-transaction statements, each ok or faulted, the fault returned or ignored by the body;
+the context cancelled or its deadline expired just before any statement k or before the body ends; final
+outcome nil / error / panic).  Nothing is bounded.
 -/
 import GoZero.C14.Proofs
 namespace GoZero.C14.Props
 open GoZero.C14 GoZero.C14.Spec
 
+/-- an environment that lets the request through -/
+def envOk : Env := { ctxDone := false, brkAllow := true, connOk := true, userAccept := false }
+
 /-- **One Begin, the body's statements, exactly one Commit/Rollback — or nothing.**
-If the transaction can be opened the driver sees exactly `Begin, <statement calls of the body>, end` where
-`end` is the single Commit or Rollback and is the last call, and the body ran once.  Otherwise the driver
-sees at most one (refused) Begin, no statement, no Commit, no Rollback, and the body did not run. -/
+If the transaction can be opened the driver sees exactly `<Begin attempts answered ErrBadConn>, Begin,
+<statement calls of the body>, end` where `end` is the single Commit or Rollback and is the last call, and the
+body ran once — whatever the body does, wherever the context is cancelled, and also when the driver's
+Commit/Rollback panics.  Otherwise the driver sees only refused Begin attempts (none if the request was not
+admitted), no statement, no Commit, no Rollback, and the body did not run. -/
 theorem ends_exactly_once (env : Env) (f : Faults) (b : Body) :
     (opened env f = true →
-      (transactCtx env f b).log = .begin true :: ((runBody b).1 ++ [endEvent f b]) ∧
+      (transactCtx env f b).log = badPrefix f.badConn (.begin true :: ((runBody b).1 ++ [endEvent f b])) ∧
       (runBody b).1.all isStmt = true ∧ isEnd (endEvent f b) = true ∧
       count isBegin (transactCtx env f b).log = 1 ∧ count isEnd (transactCtx env f b).log = 1 ∧
       (transactCtx env f b).log.getLast? = some (endEvent f b) ∧ (transactCtx env f b).runs = 1) ∧
     (opened env f = false →
-      (transactCtx env f b).log = (if env.admitted then [.begin false] else []) ∧
+      (transactCtx env f b).log = (if env.admitted then refusedBegins f else []) ∧
+      count isBeginOk (transactCtx env f b).log = 0 ∧
       count isStmt (transactCtx env f b).log = 0 ∧ count isEnd (transactCtx env f b).log = 0 ∧
       (transactCtx env f b).runs = 0 ∧ (transactCtx env f b).body = .notRun) := by
   have hall := runBody_all b
@@ -31,14 +40,69 @@ theorem ends_exactly_once (env : Env) (f : Faults) (b : Body) :
   constructor
   · intro h
     rw [log_shape_ctx, runs_ctx, h]
-    simp [count, List.filter_cons, List.filter_append, h1, h2, hend, hnb, hall, getLast?_cons_snoc]
+    simp [count, filter_badPrefix isBegin rfl, filter_badPrefix isEnd rfl, getLast?_badPrefix,
+      List.filter_cons, List.filter_append, h1, h2, hend, hnb, hall, getLast?_cons_snoc]
   · intro h
     rw [log_shape_ctx, runs_ctx, body_ctx, h]
-    cases env.admitted <;> simp [count, List.filter_cons]
+    cases env.admitted <;> simp [count]
+    refine ⟨?_, ?_, ?_⟩ <;> intro a ha <;> rcases mem_refusedBegins f a ha with rfl | rfl <;> rfl
 
-example : (transactCtx ⟨false, true, true, false⟩ ⟨true, true, false⟩
-    ⟨[⟨.exec, false, false⟩, ⟨.query, true, true⟩, ⟨.exec, false, false⟩], .ok⟩).log
+example : (transactCtx envOk { begin := true, commit := true, rollback := false }
+    { stmts := [⟨.exec, false, false⟩, ⟨.query, true, true⟩, ⟨.exec, false, false⟩], fin := .ok }).log
     = [.begin true, .exec 0 true, .query 1 false, .rollback false] := by decide
+
+/-- the context is cancelled before the second statement: it never reaches the driver, the body returns
+context.Canceled, the transaction is rolled back on the driver (the seeded change C14-2 loses this Rollback) -/
+example : transactCtx envOk { begin := true, commit := true, rollback := true }
+    { stmts := [⟨.exec, false, true⟩, ⟨.exec, false, true⟩, ⟨.exec, false, true⟩], fin := .ok, cancelAt := some 1 }
+    = { log := [.begin true, .exec 0 true, .rollback true], runs := 1, body := .err (Err.of .ctx),
+        ret := some (Err.of .ctx), mark := some true } := by decide
+
+/-- two Begin attempts answered ErrBadConn, the third opens the transaction -/
+example : (transactCtx envOk { begin := true, commit := true, rollback := true, badConn := 2 }
+    { stmts := [], fin := .ok }).log = [.beginBad, .beginBad, .begin true, .commit true] := by decide
+
+/-- **At most one transaction is ever opened**, however often the driver answers Begin with
+driver.ErrBadConn: go-zero calls `db.Begin()` once; inside it database/sql makes at most `maxBeginAttempts`
+attempts, each refused one on a connection it discards, and at most one of them opens a transaction — exactly
+when `opened`. -/
+theorem begins_at_most_one_transaction (env : Env) (f : Faults) (b : Body) :
+    count isBeginOk (transactCtx env f b).log = (if opened env f then 1 else 0) ∧
+    count isBegin (transactCtx env f b).log ≤ 1 ∧
+    count isBeginBad (transactCtx env f b).log ≤ maxBeginAttempts := by
+  have hall := runBody_all b
+  have h0 := filter_nil_of_all stmt_not_beginOk _ hall
+  have h1 := filter_nil_of_all stmt_not_begin _ hall
+  have h2 := filter_nil_of_all (p := isBeginBad) (q := isStmt) (by intro e; cases e <;> simp) _ hall
+  have hnb : isBegin (endEvent f b) = false := by unfold endEvent; split <;> rfl
+  have hno : isBeginOk (endEvent f b) = false := by unfold endEvent; split <;> rfl
+  have hnd : isBeginBad (endEvent f b) = false := by unfold endEvent; split <;> rfl
+  rw [log_shape_ctx]
+  cases ho : opened env f
+  · cases env.admitted <;> simp [count, refusedBegins]
+    unfold Faults.givesUp maxBeginAttempts
+    split
+    · decide
+    · rename_i hg
+      simp only [decide_eq_true_eq] at hg
+      refine ⟨?_, ?_, ?_⟩
+      · intro a ha
+        rcases mem_badPrefix_or _ _ _ ha with rfl | h
+        · rfl
+        · simp at h; subst h; rfl
+      · rw [filter_badPrefix isBegin rfl]; simp [List.filter_cons]
+      · rw [count_bad_badPrefix]; simp; omega
+  · have hg : f.badConn < maxBeginAttempts := by
+      have := (opened_iff env f).mp ho
+      simpa [Faults.givesUp] using this.2.2.2.1
+    simp [count, filter_badPrefix isBeginOk rfl, filter_badPrefix isBegin rfl, count_bad_badPrefix,
+      List.filter_cons, List.filter_append, h0, h1, h2, hnb, hno, hnd]
+    omega
+
+example : (transactCtx envOk { begin := false, commit := true, rollback := true, badConn := 2 }
+    { stmts := [⟨.exec, false, true⟩], fin := .ok }) =
+    { log := [.beginBad, .beginBad, .begin false], runs := 0, body := .notRun, ret := some (Err.of .begin),
+      mark := some false } := by decide
 
 /-- **The body is not run if the transaction cannot begin** (and runs exactly once if it can). -/
 theorem body_runs_iff_begun (env : Env) (f : Faults) (b : Body) :
@@ -49,8 +113,12 @@ theorem body_runs_iff_begun (env : Env) (f : Faults) (b : Body) :
   cases opened env f <;> simp
   exact runBody_ne_notRun b
 
-example : (transactCtx ⟨false, true, true, false⟩ ⟨false, true, true⟩ ⟨[⟨.exec, false, false⟩], .ok⟩).runs = 0 := by
-  decide
+example : (transactCtx envOk { begin := false, commit := true, rollback := true }
+    { stmts := [⟨.exec, false, false⟩], fin := .ok }).runs = 0 := by decide
+example : (transactCtx envOk { begin := true, commit := true, rollback := true, badConn := 3 }
+    { stmts := [⟨.exec, false, false⟩], fin := .ok }) =
+    { log := [.beginBad, .beginBad, .beginBad], runs := 0, body := .notRun, ret := some (Err.of .badConn),
+      mark := some false } := by decide
 
 /-- **Commit if and only if the body returned nil.** -/
 theorem commit_iff_body_ok (env : Env) (f : Faults) (b : Body) :
@@ -58,13 +126,14 @@ theorem commit_iff_body_ok (env : Env) (f : Faults) (b : Body) :
   have hall := runBody_all b
   rw [log_shape_ctx]
   cases ho : opened env f
-  · cases env.admitted <;> simp
+  · cases env.admitted <;> simp [refusedBegins]
+    split <;> simp [mem_badPrefix]
   · have hn : ∀ c, Ev.commit c ∉ (runBody b).1 := fun c => not_mem_of_all hall _ rfl
-    simp [hn, endEvent]
+    simp [hn, endEvent, mem_badPrefix]
     cases (runBody b).2 <;> simp
 
-example : (∃ c, Ev.commit c ∈ (transactCtx ⟨false, true, true, false⟩ ⟨true, false, true⟩ ⟨[], .ok⟩).log) :=
-  ⟨false, by decide⟩
+example : (∃ c, Ev.commit c ∈ (transactCtx envOk { begin := true, commit := false, rollback := true }
+    { stmts := [], fin := .ok }).log) := ⟨false, by decide⟩
 
 /-- **Rollback if (and only if) the body returned an error or panicked.** -/
 theorem rollback_iff_body_failed (env : Env) (f : Faults) (b : Body) :
@@ -73,58 +142,123 @@ theorem rollback_iff_body_failed (env : Env) (f : Faults) (b : Body) :
   have hall := runBody_all b
   rw [log_shape_ctx]
   cases ho : opened env f
-  · cases env.admitted <;> simp
+  · cases env.admitted <;> simp [refusedBegins]
+    split <;> simp [mem_badPrefix]
   · have hn : ∀ c, Ev.rollback c ∉ (runBody b).1 := fun c => not_mem_of_all hall _ rfl
     have hne := runBody_ne_notRun b
-    simp [hn, endEvent]
+    simp [hn, endEvent, mem_badPrefix]
     cases h : (runBody b).2 <;> simp_all
 
-example : Ev.rollback true ∈ (transactCtx ⟨false, true, true, false⟩ ⟨true, true, true⟩
-    ⟨[⟨.exec, true, true⟩], .ok⟩).log := by decide
+example : Ev.rollback true ∈ (transactCtx envOk { begin := true, commit := true, rollback := true }
+    { stmts := [⟨.exec, true, true⟩], fin := .ok }).log := by decide
+
+/-- **A context that ends while the body runs changes nothing about the ending**: the statements made after
+it never reach the driver, and the transaction is still ended by exactly the one Commit (body returned nil) or
+Rollback (body returned the context's error, any other error, or panicked) that reaches the driver. -/
+theorem cancelled_body_still_ends (env : Env) (f : Faults) (b : Body) (k : Nat)
+    (ho : opened env f = true) (hc : b.cancelAt = some k) :
+    (transactCtx env f b).log = badPrefix f.badConn (.begin true :: ((runBody b).1 ++ [endEvent f b])) ∧
+    (∀ i ok, k ≤ i → Ev.exec i ok ∉ (runBody b).1 ∧ Ev.query i ok ∉ (runBody b).1) ∧
+    ((runBody b).2 = .nil → endEvent f b = .commit f.commitOk) ∧
+    ((runBody b).2 ≠ .nil → endEvent f b = .rollback f.rollbackOk) := by
+  refine ⟨?_, ?_, ?_, ?_⟩
+  · rw [log_shape_ctx, ho]; simp
+  · intro i ok hik
+    have key : ∀ (l : List Stmt) (j : Nat) (e : Ev), e ∈ (runStmts (some k) b.deadline j l).1 →
+        (∃ i ok, (e = .exec i ok ∨ e = .query i ok) ∧ i < k) := by
+      intro l
+      induction l with
+      | nil => intro j e he; simp [runStmts] at he
+      | cons s rest ih =>
+        intro j e he
+        have hev : ∀ e, e ∈ stmtEvAt (some k) j s → ∃ i ok, (e = .exec i ok ∨ e = .query i ok) ∧ i < k := by
+          intro e he
+          unfold stmtEvAt cancelled at he
+          cases hk : s.kind <;> simp [hk] at he
+          · obtain ⟨h1, h2⟩ := he; exact ⟨j, !s.fails, Or.inl h2, by omega⟩
+          · obtain ⟨h1, h2⟩ := he; exact ⟨j, !s.fails, Or.inr h2, by omega⟩
+        unfold runStmts at he
+        split at he
+        · exact hev e he
+        · simp only [List.mem_append] at he
+          rcases he with he | he
+          · exact hev e he
+          · exact ih (j + 1) e he
+    have hrb : (runBody b).1 = (runStmts (some k) b.deadline 0 b.stmts).1 := by
+      unfold runBody; rw [hc]; split <;> rfl
+    rw [hrb]
+    constructor
+    · intro hm
+      obtain ⟨i', ok', h, hlt⟩ := key _ _ _ hm
+      rcases h with h | h <;> cases h
+      omega
+    · intro hm
+      obtain ⟨i', ok', h, hlt⟩ := key _ _ _ hm
+      rcases h with h | h <;> cases h
+      omega
+  · intro h; simp [endEvent, h]
+  · intro h; unfold endEvent; split <;> simp_all
 
 /-- **A panic of the body is rolled back and reported as an error** (never swallowed as success, never
-committed); a failing rollback is reachable in the returned error as well. -/
+committed); a failing rollback is reachable in the returned error as well.  (If the driver's Rollback itself
+panics, that panic leaves the call: see `driver_panic_escapes`.) -/
 theorem panic_is_error_and_rolled_back (env : Env) (f : Faults) (b : Body)
     (ho : opened env f = true) (hp : (runBody b).2 = .panic) :
-    (transactCtx env f b).log = .begin true :: ((runBody b).1 ++ [.rollback f.rollback]) ∧
+    (transactCtx env f b).log = badPrefix f.badConn (.begin true :: ((runBody b).1 ++ [.rollback f.rollbackOk])) ∧
     (∀ c, Ev.commit c ∉ (transactCtx env f b).log) ∧
-    (∃ e, (transactCtx env f b).ret = some e ∧ e.mentions .panic = true ∧
-          (f.rollback = false → .rollback ∈ e.is)) ∧
-    (transactCtx env f b).mark = some false := by
+    (f.rollbackPanics = false →
+      (∃ e, (transactCtx env f b).ret = some e ∧ e.mentions .panic = true ∧
+            (f.rollback = false → .rollback ∈ e.is)) ∧
+      (transactCtx env f b).escaped = false ∧
+      (transactCtx env f b).mark = some false) := by
   have hall := runBody_all b
   have hn : ∀ c, Ev.commit c ∉ (runBody b).1 := fun c => not_mem_of_all hall _ rfl
-  refine ⟨?_, ?_, ?_, ?_⟩
+  refine ⟨?_, ?_, ?_⟩
   · rw [log_shape_ctx, ho]; simp [endEvent, hp]
-  · rw [log_shape_ctx, ho]; simp [endEvent, hp, hn]
-  · rw [ret_opened env f b ho, hp]
-    cases f.rollback <;> simp [Err.mentions]
-  · rw [mark_ctx, ret_opened env f b ho, hp]
+  · rw [log_shape_ctx, ho]; simp [endEvent, hp, hn, mem_badPrefix]
+  · intro hrp
     have ho' := (opened_iff env f).mp ho
-    cases f.rollback <;> simp [ho', acceptable, srcAcceptable]
+    have hesc : (transactCtx env f b).escaped = false := by rw [escaped_ctx, hp, hrp]; simp
+    refine ⟨?_, hesc, ?_⟩
+    · rw [ret_opened env f b ho, hp, hrp]
+      cases f.rollback <;> simp [Err.mentions]
+    · rw [mark_ctx, hesc, ret_opened env f b ho, hp, hrp]
+      cases f.rollback <;> simp [ho', acceptable, srcAcceptable]
 
-example : (transactCtx ⟨false, true, true, false⟩ ⟨true, true, false⟩ ⟨[⟨.exec, false, false⟩], .panic⟩).ret
+example : (transactCtx envOk { begin := true, commit := true, rollback := false }
+    { stmts := [⟨.exec, false, false⟩], fin := .panic }).ret
     = some { is := [.rollback], says := [.panic] } := by decide
 
 /-- **The returned error is nil only when the commit succeeded** — and exactly then:
-nil ⇔ a successful Commit reached the driver ⇔ opened ∧ body returned nil ∧ the driver accepted Commit. -/
+nil ⇔ a successful Commit reached the driver ⇔ opened ∧ body returned nil ∧ the driver accepted Commit
+(without panicking).  A call that leaves by a panic of the driver never counts as nil. -/
 theorem nil_only_if_commit_ok (env : Env) (f : Faults) (b : Body) :
     ((transactCtx env f b).ret = none ↔ Ev.commit true ∈ (transactCtx env f b).log) ∧
-    ((transactCtx env f b).ret = none ↔ (opened env f = true ∧ (runBody b).2 = .nil ∧ f.commit = true)) := by
+    ((transactCtx env f b).ret = none ↔ (opened env f = true ∧ (runBody b).2 = .nil ∧ f.commitOk = true)) ∧
+    ((transactCtx env f b).escaped = true → (transactCtx env f b).ret ≠ none) := by
   have hall := runBody_all b
   have hn : Ev.commit true ∉ (runBody b).1 := not_mem_of_all hall _ rfl
   have hne := runBody_ne_notRun b
-  rw [log_shape_ctx]
+  rw [log_shape_ctx, escaped_ctx]
   cases ho : opened env f
   · rw [ret_not_opened env f b ho]
-    cases env.admitted <;> simp
+    cases env.admitted <;> simp [refusedBegins]
+    split <;> simp [mem_badPrefix]
   · rw [ret_opened env f b ho]
-    cases h : (runBody b).2 <;> cases hc : f.commit <;> simp_all [endEvent]
+    cases h : (runBody b).2 <;> cases hc : f.commit <;> cases hp : f.commitPanics <;> cases hq : f.rollbackPanics <;>
+      simp_all [endEvent, mem_badPrefix, Faults.commitOk, Faults.rollbackOk]
 
-example : (transactCtx ⟨false, true, true, false⟩ ⟨true, false, true⟩ ⟨[], .ok⟩).ret = some (Err.of .commit) := by
-  decide
+example : (transactCtx envOk { begin := true, commit := false, rollback := true }
+    { stmts := [], fin := .ok }).ret = some (Err.of .commit) := by decide
+/-- the context expired before the last statement, the body ignored every error and returned nil: committed, nil -/
+example : transactCtx envOk { begin := true, commit := true, rollback := true }
+    { stmts := [⟨.exec, false, false⟩, ⟨.query, false, false⟩], fin := .ok, cancelAt := some 1, deadline := true }
+    = { log := [.begin true, .exec 0 true, .commit true], runs := 1, body := .nil, ret := none,
+        mark := some true } := by decide
 
 /-- **Commit and rollback failures are reported to the caller**: whenever the driver refused the Commit
-(Rollback), the returned error is non-nil and the driver's error is reachable in its chain (`errors.Is`). -/
+(Rollback) — by an error or by panicking — the caller does not get nil and the driver's error is reachable in
+the returned chain (`errors.Is`), respectively is the panic value the call leaves with. -/
 theorem termination_failures_reported (env : Env) (f : Faults) (b : Body) :
     (Ev.commit false ∈ (transactCtx env f b).log →
         ∃ e, (transactCtx env f b).ret = some e ∧ Src.commit ∈ e.is) ∧
@@ -136,76 +270,140 @@ theorem termination_failures_reported (env : Env) (f : Faults) (b : Body) :
   have hne := runBody_ne_notRun b
   rw [log_shape_ctx]
   cases ho : opened env f
-  · cases env.admitted <;> simp
+  · cases env.admitted <;> simp [refusedBegins] <;> split <;> simp [mem_badPrefix]
   · rw [ret_opened env f b ho]
-    cases h : (runBody b).2 <;> cases hc : f.commit <;> cases hr : f.rollback <;> simp_all [endEvent, Err.of]
+    cases h : (runBody b).2 <;> cases hc : f.commit <;> cases hr : f.rollback <;> cases hp : f.commitPanics <;>
+      cases hq : f.rollbackPanics <;>
+      simp_all [endEvent, Err.of, mem_badPrefix, Faults.commitOk, Faults.rollbackOk]
 
-example : (transactCtx ⟨false, true, true, false⟩ ⟨true, true, false⟩ ⟨[], .err .noRows⟩).ret
+example : (transactCtx envOk { begin := true, commit := true, rollback := false }
+    { stmts := [], fin := .err .noRows }).ret
     = some { is := [.rollback], says := [.body .noRows] } := by decide
+
+/-- **A panic of the driver's own Commit / Rollback is the only way the call does not return**: it happens
+exactly when a transaction was opened and the ending call the body's outcome selects panics; the driver saw
+that one ending call (so the transaction was still ended exactly once, by `ends_exactly_once`), the panic value
+is the driver's, and `acceptable` is not consulted (the breaker books a failure in its deferred function). -/
+theorem driver_panic_escapes (env : Env) (f : Faults) (b : Body) :
+    ((transactCtx env f b).escaped = true ↔
+      (opened env f = true ∧ (((runBody b).2 = .nil ∧ f.commitPanics = true) ∨
+                              ((runBody b).2 ≠ .nil ∧ f.rollbackPanics = true)))) ∧
+    ((transactCtx env f b).escaped = true →
+      (transactCtx env f b).mark = none ∧
+      (((runBody b).2 = .nil ∧ (transactCtx env f b).ret = some (Err.of .commit) ∧
+          (transactCtx env f b).log.getLast? = some (.commit false)) ∨
+       ((runBody b).2 ≠ .nil ∧ (transactCtx env f b).ret = some (Err.of .rollback) ∧
+          (transactCtx env f b).log.getLast? = some (.rollback false)))) := by
+  have hne := runBody_ne_notRun b
+  constructor
+  · rw [escaped_ctx]
+    cases opened env f <;> cases h : (runBody b).2 <;> simp_all
+  · intro hesc
+    have hm := mark_ctx env f b
+    rw [hesc] at hm
+    rw [escaped_ctx] at hesc
+    simp only [Bool.and_eq_true] at hesc
+    obtain ⟨ho, hp⟩ := hesc
+    have ho' := (opened_iff env f).mp ho
+    refine ⟨?_, ?_⟩
+    · rw [hm]; simp [ho']
+    · rw [ret_opened env f b ho, log_shape_ctx, ho]
+      cases h : (runBody b).2 <;>
+        simp_all [endEvent, getLast?_badPrefix, getLast?_cons_snoc, Faults.commitOk, Faults.rollbackOk]
+
+example : transactCtx envOk { begin := true, commit := true, rollback := true, commitPanics := true }
+    { stmts := [⟨.exec, false, true⟩], fin := .ok }
+    = { log := [.begin true, .exec 0 true, .commit false], runs := 1, body := .nil,
+        ret := some (Err.of .commit), mark := none, escaped := true } := by decide
 
 /-- **The body's error is what the caller gets** when the rollback works (same identity), and is still
 told (in the message) when the rollback fails too. -/
 theorem body_error_returned (env : Env) (f : Faults) (b : Body) (e : Err)
-    (ho : opened env f = true) (hb : (runBody b).2 = .err e) :
+    (ho : opened env f = true) (hb : (runBody b).2 = .err e) (hq : f.rollbackPanics = false) :
     (f.rollback = true → (transactCtx env f b).ret = some e) ∧
     (f.rollback = false → (transactCtx env f b).ret = some { is := [.rollback], says := e.is ++ e.says }) := by
-  rw [ret_opened env f b ho, hb]
+  rw [ret_opened env f b ho, hb, hq]
   cases f.rollback <;> simp
 
-example : (transactCtx ⟨false, true, true, false⟩ ⟨true, true, true⟩
-    ⟨[⟨.exec, false, false⟩, ⟨.exec, true, true⟩, ⟨.exec, false, false⟩], .ok⟩).ret = some (Err.of (.stmt 1)) := by
-  decide
+example : (transactCtx envOk { begin := true, commit := true, rollback := true }
+    { stmts := [⟨.exec, false, false⟩, ⟨.exec, true, true⟩, ⟨.exec, false, false⟩], fin := .ok }).ret
+    = some (Err.of (.stmt 1)) := by decide
 
 /-- **Statements run in order, each once, and nothing runs after a statement whose error the body
-returned**, for bodies of every length. -/
+returned**, for bodies of every length (statements refused because the context is done make no driver call). -/
 theorem statements_in_order (b : Body) :
-    (runBody b).1 = eventsOf 0 (executed b.stmts) := by
+    (runBody b).1 = eventsOf b.cancelAt 0 (executed b.cancelAt 0 b.stmts) := by
   unfold runBody
-  split <;> exact runStmts_executed b.stmts 0
+  split <;> exact runStmts_executed _ _ b.stmts 0
 
-example : (runBody ⟨[⟨.exec, false, false⟩, ⟨.nest, true, true⟩, ⟨.exec, false, false⟩], .ok⟩).1 = [.exec 0 true] := by
-  decide
+example : (runBody { stmts := [⟨.exec, false, false⟩, ⟨.nest, true, true⟩, ⟨.exec, false, false⟩], fin := .ok }).1
+    = [.exec 0 true] := by decide
 
-/-- **What the breaker is told**: success exactly when the request was admitted and the returned error is
-nil or carries something `acceptable` accepts in its chain.  In particular a failed Begin, Commit or Rollback
-and a panic always count as failures. -/
+/-- **What the breaker is told**: `acceptable` is consulted exactly when the request was admitted and the
+call returned; it then says success exactly when the returned error is nil or carries something acceptable
+(sql.ErrNoRows, sql.ErrTxDone, context.Canceled, acceptableError, WithAcceptable) in its chain.  In particular a
+failed Begin (also after ErrBadConn retries), Commit or Rollback, a deadline and a panic always count as
+failures, a body that stops with context.Canceled does not. -/
 theorem breaker_told (env : Env) (f : Faults) (b : Body) :
     (transactCtx env f b).mark =
       (if env.ctxDone || !env.brkAllow then none
-       else some (env.connOk && acceptable env.userAccept (transactCtx env f b).ret)) ∧
+       else if !env.connOk then some false
+       else if (transactCtx env f b).escaped then none
+       else some (acceptable env.userAccept (transactCtx env f b).ret)) ∧
+    breakerTold env.userAccept (transactCtx env f b) = true ∧
     (Ev.begin false ∈ (transactCtx env f b).log ∨ Ev.commit false ∈ (transactCtx env f b).log ∨
-       Ev.rollback false ∈ (transactCtx env f b).log → (transactCtx env f b).mark = some false) := by
+       Ev.rollback false ∈ (transactCtx env f b).log → (transactCtx env f b).mark ≠ some true) ∧
+    ((transactCtx env f b).ret = some (Err.of .badConn) ∨ (transactCtx env f b).ret = some (Err.of .deadline) →
+       (transactCtx env f b).mark ≠ some true) := by
   have hall := runBody_all b
   have hn0 : Ev.begin false ∉ (runBody b).1 := not_mem_of_all hall _ rfl
   have hn1 : Ev.commit false ∉ (runBody b).1 := not_mem_of_all hall _ rfl
   have hn2 : Ev.rollback false ∉ (runBody b).1 := not_mem_of_all hall _ rfl
   have hne := runBody_ne_notRun b
-  constructor
-  · unfold transactCtx
-    cases env.ctxDone <;> cases env.brkAllow <;> cases env.connOk <;> simp
-  · rw [mark_ctx, log_shape_ctx]
+  refine ⟨mark_ctx env f b, breakerTold_ctx env f b, ?_, ?_⟩
+  · rw [mark_ctx, escaped_ctx, log_shape_ctx]
     cases ho : opened env f
     · rw [ret_not_opened env f b ho]
       unfold opened Env.admitted at ho
-      cases h1 : env.ctxDone <;> cases h2 : env.brkAllow <;> cases h3 : env.connOk <;>
-        simp_all [Env.admitted, acceptable, Err.of, srcAcceptable]
+      cases h1 : env.ctxDone <;> cases h2 : env.brkAllow <;> cases h3 : env.connOk <;> cases h4 : f.givesUp <;>
+        simp_all [Env.admitted, acceptable, Err.of, srcAcceptable, refusedBegins, mem_badPrefix]
     · rw [ret_opened env f b ho]
       have ho' := (opened_iff env f).mp ho
-      cases h : (runBody b).2 <;> cases hc : f.commit <;> cases hr : f.rollback <;>
-        simp_all [endEvent, Err.of, acceptable, srcAcceptable]
+      cases h : (runBody b).2 <;> cases hc : f.commit <;> cases hr : f.rollback <;> cases hp : f.commitPanics <;>
+        cases hq : f.rollbackPanics <;>
+        simp_all [endEvent, Err.of, acceptable, srcAcceptable, mem_badPrefix, Faults.commitOk, Faults.rollbackOk]
+  · have hb := breakerTold_ctx env f b
+    unfold breakerTold at hb
+    intro hret hm
+    rw [hm] at hb
+    rcases hret with hret | hret <;> rw [hret] at hb <;> simp [acceptable, Err.of, srcAcceptable] at hb
 
-example : (transactCtx ⟨false, true, true, false⟩ ⟨true, true, true⟩ ⟨[], .err .noRows⟩).mark = some true := by decide
-example : (transactCtx ⟨false, true, true, false⟩ ⟨true, true, false⟩ ⟨[], .err .noRows⟩).mark = some false := by decide
+example : (transactCtx envOk { begin := true, commit := true, rollback := true }
+    { stmts := [], fin := .err .noRows }).mark = some true := by decide
+example : (transactCtx envOk { begin := true, commit := true, rollback := false }
+    { stmts := [], fin := .err .noRows }).mark = some false := by decide
+/-- the body stops with the deadline's error: rolled back, and a failure for the breaker -/
+example : transactCtx envOk { begin := true, commit := true, rollback := true }
+    { stmts := [⟨.query, false, true⟩], fin := .ok, cancelAt := some 0, deadline := true }
+    = { log := [.begin true, .rollback true], runs := 1, body := .err (Err.of .deadline),
+        ret := some (Err.of .deadline), mark := some false } := by decide
 
 /-- **The executable monitor is sound**: every clause the driver evaluates on the real code's observations
 holds of the model, for `TransactCtx` and for `transactOnConn`. -/
 theorem monitor_sound (env : Env) (f : Faults) (b : Body) :
     holds (transactCtx env f b) = true ∧ holds (transactOnConn f b) = true ∧
-    violated (transactCtx env f b) = [] ∧ violated (transactOnConn f b) = [] :=
+    violated (transactCtx env f b) = [] ∧ violated (transactOnConn f b) = [] ∧
+    breakerTold env.userAccept (transactCtx env f b) = true :=
   ⟨holds_ctx env f b, holds_onConn f b, violated_nil_of_holds _ (holds_ctx env f b),
-   violated_nil_of_holds _ (holds_onConn f b)⟩
+   violated_nil_of_holds _ (holds_onConn f b), breakerTold_ctx env f b⟩
 
-example : holds (transactCtx ⟨false, true, true, true⟩ ⟨true, false, false⟩
-    ⟨[⟨.query, true, false⟩, ⟨.nest, true, false⟩], .err .userOk⟩) = true := by decide
+example : holds (transactCtx { envOk with userAccept := true } { begin := true, commit := false, rollback := false }
+    { stmts := [⟨.query, true, false⟩, ⟨.nest, true, false⟩], fin := .err .userOk }) = true := by decide
+
+/-- the monitor is not vacuous: what the seeded change C14-2 does (body returned an error under a done context,
+no Rollback) violates ends-exactly-once and rollback-iff-body-failed -/
+example : violated
+    { log := [.begin true, .exec 0 true], runs := 1, body := .err (Err.of .ctx),
+      ret := some (Err.of .ctx), mark := some true } = ["ends-exactly-once", "rollback-iff-body-failed"] := by decide
 
 end GoZero.C14.Props
